@@ -57,7 +57,7 @@ class Ctx:
         self.qs = Q.QueryStats()
         self.findings = []
         self.paths = 0
-        self.timeout_ms = 20000 if tier == "quick" else 60000
+        self.timeout_ms = 60000 if tier == "quick" else 120000
         self.w = C.Writer(mir.MirFile(scratch.mir_dump("compiler", True)), scratch.repo, seed=V.seed())
         self.r = C.Reader(mir.MirFile(scratch.mir_dump("bytecode", True)), seed=V.seed())
         self.t = None
